@@ -623,8 +623,10 @@ func c05NamedParams(ctx *Ctx) error {
 		"/m5/{user_id}/{type}": J{"get": J{"operationId": "m5", "parameters": []interface{}{p("type", "path", "label", false, str), p("user_id", "path", "matrix", true, str)}, "responses": ok}},
 		// a query parameter with the name of the path variable, declared before it: each keeps its own style
 		"/n1/{id}": J{"get": J{"operationId": "n1", "parameters": []interface{}{p("id", "query", "form", true, arr), p("id", "path", "simple", false, arr)}, "responses": ok}},
-		"/q1":      J{"get": J{"operationId": "q1", "parameters": []interface{}{p("user_id", "query", "form", true, str), p("item-ids", "query", "form", true, arr), p("type", "query", "form", false, arr)}, "responses": ok}},
-		"/c1":      J{"get": J{"operationId": "c1", "parameters": []interface{}{p("user_id", "cookie", "form", false, str)}, "responses": ok}},
+		// three query parameters and a header parameter whose name sorts before theirs: every parameter goes where it is declared
+		"/multi3": J{"get": J{"operationId": "multi3", "parameters": []interface{}{p("limit", "query", "form", true, J{"type": "integer"}), p("offset", "query", "form", true, J{"type": "integer"}), p("sort", "query", "form", true, str), p("X-Request-Id", "header", "simple", false, str)}, "responses": ok}},
+		"/q1":     J{"get": J{"operationId": "q1", "parameters": []interface{}{p("user_id", "query", "form", true, str), p("item-ids", "query", "form", true, arr), p("type", "query", "form", false, arr)}, "responses": ok}},
+		"/c1":     J{"get": J{"operationId": "c1", "parameters": []interface{}{p("user_id", "cookie", "form", false, str)}, "responses": ok}},
 	}}
 	type cse struct {
 		fn      string
@@ -641,6 +643,7 @@ func c05NamedParams(ctx *Ctx) error {
 		{"NewM4Request", []interface{}{"http://h", "blue"}, "http://h/m4/;type=blue", "", nil},
 		{"NewM5Request", []interface{}{"http://h", "u5", "blue"}, "http://h/m5/;user_id=u5/.blue", "", nil},
 		{"NewN1Request", []interface{}{"http://h", []int{3, 4, 5}, J{"id": []int{6, 7}}}, "http://h/n1/3,4,5?id=6&id=7", "", J{"id": []int{3, 4, 5}, "params": J{"Id": []int{6, 7}}}},
+		{"NewMulti3Request", []interface{}{"http://h", J{"limit": 10, "offset": 20, "sort": "asc", "X-Request-Id": "r1"}}, "http://h/multi3?limit=10&offset=20&sort=asc", "", J{"params": J{"Limit": 10, "Offset": 20, "Sort": "asc", "XRequestId": "r1"}}},
 		{"NewQ1Request", []interface{}{"http://h", J{"user_id": "u5", "item-ids": []int{3, 4}, "type": []int{7, 8}}}, "http://h/q1?item-ids=3&item-ids=4&type=7%2C8&user_id=u5", "", nil},
 		{"NewC1Request", []interface{}{"http://h", J{"user_id": "u5"}}, "http://h/c1", "user_id=u5", nil},
 	}
